@@ -105,7 +105,8 @@ def run(code, env, world=None, max_steps=20000, max_paths=4000, feas_ms=3000, st
                     stack.append(BV(pc))
                     pc += 1
                 elif name == "codesize":
-                    stack.append(BV(len(code)))
+                    tl = getattr(env, "code_tail_len", None)
+                    stack.append(BV(len(code)) if tl is None else BV(len(code)) + tl)
                     pc += 1
                 elif name == "codecopy":
                     w = _codecopy(code, args, w)
@@ -170,17 +171,31 @@ def run(code, env, world=None, max_steps=20000, max_paths=4000, feas_ms=3000, st
     return outs
 
 
+def _code_byte(code, k, env):
+    """byte k (a Python int) of the running code: the concrete bytes, followed by the appended data section - constructor
+    arguments when init code runs, immutables when run-time code runs (env.code_tail, zero past env.code_tail_len)"""
+    if k < len(code):
+        return z3.BitVecVal(code[k], 8)
+    tail = getattr(env, "code_tail", None)
+    if tail is None:
+        return z3.BitVecVal(0, 8)
+    j = BV(k - len(code))
+    b = z3.Select(tail, j)
+    tl = getattr(env, "code_tail_len", None)
+    return b if tl is None else z3.If(z3.ULT(j, tl), b, z3.BitVecVal(0, 8))
+
+
 def _codecopy(code, args, w):
     """codecopy with a possibly symbolic source offset: the source bytes are an ite-chain over the code (exact)"""
     dst, src, ln = args
+    env = w.env
     n = conc(ln)
     if n is None:
         raise Unsupported("codecopy with symbolic length")
     s = conc(src)
     if s is not None:
         def cb(i):
-            k = s + conc(i)
-            return z3.BitVecVal(code[k] if k < len(code) else 0, 8)
+            return _code_byte(code, s + conc(i), env)
     else:
         # symbolic offset (jump-table lookup): enumerate the feasible offsets
         vals = Mx.enumerate_values(src, w.pc, limit=300)
@@ -191,6 +206,6 @@ def _codecopy(code, args, w):
             k = conc(i)
             e = z3.BitVecVal(0, 8)
             for v in vals:
-                e = z3.If(src == v, z3.BitVecVal(code[v + k] if v + k < len(code) else 0, 8), e)
+                e = z3.If(src == v, _code_byte(code, v + k, env), e)
             return e
     return w.replace(mem=w.mem.copy_from(dst, cb, ln))
